@@ -809,6 +809,13 @@ class Gen:
                       f'__all__.extend(*["{a}"])', f'__all__.extend(x for x in "{a}")', f'__all__.extend(["{a}"] + os.__all__)',
                       f'__all__.append(os.{a})', f'extend(["{a}"])', f'__all__.extend(names=["{a}"])']
         form = self.rng.choice(forms)
+        top = self.exe and kind == "module" and ind == 0
+        if top and getattr(self, "has_all_top", False) and self.rng.random() < 0.6:
+            form = self.rng.choice([f'__all__.extend(["{a}"])', f'__all__.append("{b}")', f'__all__.extend(("{a}", "{b}"))', f'__all__ += ["{a}"]'])
+        if top and not getattr(self, "has_all_top", False) and ("__all__." in form or "+=" in form):
+            self.emit(ind, f'__all__ = ["{self.name()}"]')        # so that the extension has something to extend when executed
+        if top and (form.startswith("__all__ =") or form.startswith("__all__:") or "__all__." in form or "+=" in form):
+            self.has_all_top = True
         if "__all__." in form or form.startswith(("other.", "extend(")):
             self.features.add("__all__-method")
         self.emit(ind, form)
@@ -1612,6 +1619,7 @@ def runtime_checks(case, tree, mod):
                                                                 and not isinstance(s.value.args[0], ast.Starred)):
                     direct_only = False
         if direct_only and all(e.startswith("s:") for e in ex) and isinstance(ns["__all__"], (list, tuple)):
+            case["_exports_compared"] = True
             if [e[2:] for e in ex] != list(ns["__all__"]):
                 fails.append(("exports", f"exports {ex} but the executed module has __all__ = {ns['__all__']!r}", None))
     return fails
@@ -2394,6 +2402,8 @@ def check_structural(ctx, cases, label):
                 ctx.observe("branch", "class-level-__all__")
             if o.kind.value == "attribute" and "instance-attribute" in o.labels and "class-attribute" not in o.labels and o.parent.kind.value == "class":
                 ctx.observe("branch", "instance-attribute")
+        if mod.exports is not None and ("__all__.extend(" in c["source"] or "__all__.append(" in c["source"]):
+            ctx.observe("branch", "exports-with-extend/append-call")
         if mod.exports is not None:
             ctx.observe("branch", "exports:" + ("empty" if not mod.exports else "names" if any(not isinstance(e, str) for e in mod.exports) else "strings"))
         if c["is_init"]:
@@ -2403,6 +2413,8 @@ def check_structural(ctx, cases, label):
         if c["executable"]:
             rt = runtime_checks(c, tree, mod)
             ctx.observe("exec", "failed" if rt is None else "ok")
+            if c.get("_exports_compared"):
+                ctx.observe("branch", "runtime-__all__-compared" + ("-with-extend/append" if "__all__.extend(" in c["source"] or "__all__.append(" in c["source"] else ""))
             fails += rt or []
             # (O) the declarative bindings (spec side of the theorems) vs CPython: every name the executed module binds
             # through a supported statement is a bound name of the level (overload-only names are omitted by definition: F6)
